@@ -14,7 +14,7 @@ import (
 
 func init() { Registry["C16"] = runC16 }
 
-const explanationC16 = "Decides structural necessary conditions of C16 on http/mux.go through SSA path tables (loops unrolled once): (R16.1) the wildcard table is keyed method+\"::\"+pattern with the same separator and operand order at its store (Handle) and both loads (Vars, resolveWildcard), and the stored pattern is the rewritten one that is also registered with the router; (R16.2) every value placed in the map returned by Vars is unescape(params.Values[i]) and unescape falls back to its input on error; (R16.3) resolveWildcard re-inserts \"/{*name}\" after trimming exactly the length of the \"/*\" replacement; (R16.4) Handle and Use mutate the muxer only under the mutex (Lock first, deferred Unlock); (R16.5) the not-found handler negotiates an encoder, writes 404, then encodes an error response, and is installed with the first Handle; (R16.6) route probes (Routes.Match) outside ensureContext use a fresh routing context so that the recorded pattern and parameters of the request are not disturbed; (R16.7) Use appends to the pending list when one exists and otherwise forwards to the router, Handle flushes every pending middleware into the router and clears the list before registering the route, and every returning path of Handle registers the route exactly once; (R16.8) the constructor gives Handle's first-registration sentinel a non-nil value; (R16.9) the pre-routing probe matches the bare request path. NOT decided: chi's matching algorithm, whether capture is the inverse of URL construction for all strings (double percent-decoding depends on chi's RawPath/Path choice), client-side path building (delegated to net/url)."
+const explanationC16 = "Decides structural necessary conditions of C16 on http/mux.go through SSA path tables (loops unrolled once): (R16.1) the wildcard table is keyed method+\"::\"+pattern with the same separator and operand order at its store (Handle) and both loads (Vars, resolveWildcard), and the stored pattern is the rewritten one that is also registered with the router; (R16.2) every value placed in the map returned by Vars is unescape(params.Values[i]) and unescape falls back to its input on error; (R16.3) resolveWildcard re-inserts \"/{*name}\" after trimming exactly the length of the \"/*\" replacement; (R16.4) Handle and Use mutate the muxer only under the mutex (Lock first, deferred Unlock); (R16.5) the not-found handler negotiates an encoder, writes 404, then encodes an error response, and is installed with the first Handle; (R16.6) route probes (Routes.Match) outside ensureContext use a fresh routing context so that the recorded pattern and parameters of the request are not disturbed; (R16.7) Use appends to the pending list when one exists and otherwise forwards to the router, Handle flushes every pending middleware into the router and clears the list before registering the route, and every returning path of Handle registers the route exactly once; (R16.8) the constructor gives Handle's first-registration sentinel a non-nil value; (R16.9) the pre-routing probe matches the bare request path. shared R15.1–R15.3 (the encoder that writes the 404 body announces the media type it encodes). NOT decided: chi's matching algorithm, whether capture is the inverse of URL construction for all strings (double percent-decoding depends on chi's RawPath/Path choice), client-side path building (delegated to net/url)."
 
 const reRewritten = `\(\*regexp\.Regexp\)\.ReplaceAllString\(http\.wildPath, p2, "(/\*)"\)`
 
@@ -26,6 +26,7 @@ func runC16(c *an.Ctx) string {
 	r16NotFound(c)
 	r16Probe(c)
 	r16Sentinels(c)
+	r15ResponseEncoder(c) // shared with C15 (rule ids R15.1-R15.3): the 404 body is written by the encoder ResponseEncoder negotiates and must be announced with that encoder's media type
 	return explanationC16
 }
 
